@@ -304,7 +304,7 @@ func registryChurn(r *rep.Report, bursts int) {
 func TestC04(t *testing.T) {
 	r := rep.New(t, "C04")
 	defer r.Flush()
-	r.Rule("PRNG histories of 4-18 operations on one server: handshakes on three transports, every close cause, upgrades, requests naming closed sessions, sessions killed while their handshake is held at server.Handshake.afterNewSocket, final Server.Close; after EVERY operation the bubble is brought to quiescence and the invariant is evaluated (table == count == live announced sessions, no closed session reachable, no underflow); ids checked for uniqueness and alphabet across the process plus 16-goroutine GenerateId storms, also with crypto/rand replaced by a constant reader; distinct = operation sequences")
+	r.Rule("PRNG histories of 4-18 operations on one server: handshakes on three transports, every close cause, upgrades, requests naming closed sessions, sessions killed while their handshake is held at server.Handshake.afterNewSocket, final Server.Close (window operation on all three transports with six causes); a real-time churn lane of 32 goroutines handshaking and closing concurrently; after EVERY operation the bubble is brought to quiescence and the invariant is evaluated (table == count == live announced sessions, no closed session reachable, no underflow); ids checked for uniqueness and alphabet across the process plus 16-goroutine GenerateId storms, also with crypto/rand replaced by a constant reader; distinct = operation sequences")
 	r.Assume("with a degenerate random source ids must still be unique: the guarantee rests on the monotone sequence number inside the id, not on luck")
 	n := r.N(2000, 100000)
 	for i := 0; i < n; i++ {
